@@ -417,6 +417,57 @@ fn real_history(rng: &mut Rng, feats: &mut BTreeMap<&'static str, u64>) -> (Stri
     }
 }
 
+/// Corpus case (index 0): finding F6, repaired by /repo 77438d6.  Commit p is recorded by no
+/// operation; c1 and c2 both rewrite p; c3 squashes c2 and c1.  p must be listed once.
+fn corpus_unrecorded_two_paths() -> (String, bool, String) {
+    let settings = settings();
+    let test_repo = TestRepo::init_with_settings(&settings);
+    let repo0 = test_repo.repo.clone();
+    let loader = repo0.loader().clone();
+    let root = repo0.store().root_commit_id().clone();
+    let mut nums = Numbering::new(&root);
+    let mut tx = repo0.start_transaction();
+    let p = tx
+        .repo_mut()
+        .new_commit(vec![root.clone()], repo0.store().empty_merged_tree())
+        .set_description("p")
+        .write_unwrap();
+    nums.add(p.id());
+    let r = tx.write("import").block_on().unwrap().leave_unpublished();
+    let mut data = r.operation().store_operation().clone();
+    data.commit_predecessors = Some(BTreeMap::new());
+    let op_id = loader.op_store().write_operation(&data).block_on().unwrap();
+    let op = loader.load_operation(&op_id).block_on().unwrap();
+    let mut repo = loader.load_at(&op).block_on().unwrap();
+    let mut rewrite = |repo: &Arc<ReadonlyRepo>, of: &Commit, preds: Vec<CommitId>, desc: &str, nums: &mut Numbering| {
+        let mut tx = repo.start_transaction();
+        let c = tx
+            .repo_mut()
+            .rewrite_commit(of)
+            .set_predecessors(preds)
+            .set_description(desc)
+            .write_unwrap();
+        nums.add(c.id());
+        tx.repo_mut().rebase_descendants().block_on().unwrap();
+        (tx.write(desc).block_on().unwrap().leave_unpublished(), c)
+    };
+    let (r1, c1) = rewrite(&repo, &p, vec![p.id().clone()], "c1", &mut nums);
+    repo = r1;
+    let (r2, c2) = rewrite(&repo, &p, vec![p.id().clone()], "c2", &mut nums);
+    repo = r2;
+    let (r3, c3) = rewrite(&repo, &c2, vec![c2.id().clone(), c1.id().clone()], "c3", &mut nums);
+    repo = r3;
+    let start = vec![nums.get(c3.id())];
+    match observe(&repo, &[c3.id().clone()], &nums) {
+        Some(o) => (term(&o, &start), true, "corpus F6 unrecorded-two-paths".into()),
+        None => (
+            coq::app("C46.mk_case", &["[]".into(), "[]".into(), "[]".into(), "None".into(), "true".into()]),
+            false,
+            "corpus panic".into(),
+        ),
+    }
+}
+
 // ------------------------------------------------------------------ stream B: synthetic ops
 
 struct Synth {
@@ -629,7 +680,9 @@ fn main() {
         let mut feats: BTreeMap<&'static str, u64> = BTreeMap::new();
         for i in ctx.indices() {
             let mut rng = ctx.rng(i);
-            let (term, nontrivial, shape) = if i % 3 == 0 {
+            let (term, nontrivial, shape) = if i == 0 {
+                corpus_unrecorded_two_paths()
+            } else if i % 3 == 0 {
                 real_history(&mut rng, &mut feats)
             } else {
                 synthetic(&mut synth, &mut rng)
